@@ -7,6 +7,7 @@ package main
 import (
 	"fmt"
 	"go/types"
+	"regexp"
 	"sort"
 	"strings"
 
@@ -26,6 +27,14 @@ type Loc struct {
 
 func (env *Env) evalLoc(e *E) Loc {
 	switch e.Op {
+	case "id":
+		// a captured variable of a closure: its cell
+		if c, ok := env.vars["&"+e.Name]; ok {
+			if pv, ok := c.V.(PtrV); ok {
+				return Loc{Kind: "field", P: pv}
+			}
+		}
+		env.fail("%s is not an assignable captured variable", e.Name)
 	case "sel":
 		x := env.eval(e.Args[0])
 		loc, t, ok := env.structLoc(x)
@@ -273,6 +282,13 @@ func (ex *Exec) applyContract(s *State, instr ssa.Instruction, f *ssa.Function, 
 		for _, t := range env.locTargets(loc) {
 			arr := s.heapCur(t.Name, SArray(SRef, t.Sort))
 			nv := s.declare(ex.g.fresh("hv"), t.Sort)
+			// whatever the callee stored refers to objects that exist when it returns
+			switch t.Sort {
+			case SRef:
+				s.assume(IntLt(nv, ex.allocFrontier(s)))
+			case SSlice, SIface, SStr:
+				ex.assumeWF(s, nv, nil)
+			}
 			s.heapSet(t.Name, Store(arr, t.Base, nv))
 		}
 	}
@@ -315,13 +331,28 @@ func (ex *Exec) checkPost(s *State, ret *ssa.Return, results []Val) {
 	ex.runGhost(s, "return", "after", results)
 	env = ex.rootEnv(s, results)
 	retOrd := ex.ordinal(ret, "return")
-	ex.cover(s, fmt.Sprintf("%s#cover.return.%d", ex.key, retOrd), ex.con.AllTags(), ret.Pos())
+	// vacuity guard: some return of the function must be reachable under the
+	// precondition (individual returns may be dead defensive code)
+	// Every return site must be reachable (a proof about an unreachable
+	// branch is vacuous) unless the contract declares it dead (`deadreturn N`:
+	// defensive code such as error returns of callees that never fail).
+	if !ex.con.DeadReturns[retOrd] {
+		ex.cover(s, fmt.Sprintf("%s#cover.return.%d", ex.key, retOrd), ex.con.AllTags(), ret.Pos())
+	}
 	for _, e := range ex.con.Ensures {
+		if ex.mentionsUnboundSiteLet(s, e.Expr) {
+			// the clause talks about a value captured at a call site that
+			// this path did not reach: nothing to check on this path
+			continue
+		}
 		goal := ex.evalBool(env, e.Expr)
 		ex.oblige(s, fmt.Sprintf("%s#post.%s", ex.key, e.Label), "post", ret.Pos(), e.Tags, goal, e.Src)
 		if n := len(ex.obls); n > 0 && ex.obls[n-1].Kind == "post" {
 			ex.obls[n-1].Results = results
 		}
+	}
+	for _, e := range ex.con.Invariants {
+		ex.oblige(s, fmt.Sprintf("%s#post.inv.%s", ex.key, e.Label), "post", ret.Pos(), e.Tags, ex.evalBool(env, e.Expr), e.Src)
 	}
 	// every mutex taken by this call has been released
 	if len(ex.con.Guards) > 0 {
@@ -526,7 +557,19 @@ func (ex *Exec) loopEnter(s *State, li *loopInfo, from *ssa.BasicBlock) {
 		fr.Regs[p] = ex.freshVal(s, p.Type(), "loop_"+p.Comment)
 	}
 	for _, n := range mods {
-		s.heapSet(n, s.declare(ex.g.fresh("lh"), s.Heap[n].Sort))
+		idxs, pointwise := ex.lastDryIdx[n]
+		if !pointwise || ex.lastDryWhole[n] {
+			s.heapSet(n, s.declare(ex.g.fresh("lh"), s.Heap[n].Sort))
+			continue
+		}
+		// the body writes this heap array only at loop-invariant indices:
+		// havoc exactly those (keeps the frame of everything else)
+		cur := s.Heap[n]
+		_, vs := splitArraySort(cur.Sort)
+		for _, ix := range idxs {
+			cur = Store(cur, Term{ix, SRef}, s.declare(ex.g.fresh("lh"), vs))
+		}
+		s.heapSet(n, cur)
 	}
 	for _, n := range gmods {
 		s.Ghost[n] = s.declare(ex.g.fresh("lg"), s.Ghost[n].Sort)
@@ -544,6 +587,37 @@ func (ex *Exec) loopBack(s *State, li *loopInfo, from *ssa.BasicBlock) {
 			if b, ok := ex.dryBase[n]; (!ok && t.S != n) || (ok && b.S != t.S) {
 				ex.dryMods[n] = true
 				ex.drySorts[n] = t.Sort
+				// which indices were written (store chain down to the base)?
+				base := n
+				if ok {
+					base = b.S
+				}
+				cur := t.S
+				okChain := true
+				for cur != base {
+					if !strings.HasPrefix(cur, "(store ") {
+						okChain = false
+						break
+					}
+					args := splitTopArgs(cur[len("(store ") : len(cur)-1])
+					if len(args) != 3 || ex.mentionsDrySymbol(args[1]) {
+						okChain = false
+						break
+					}
+					seen := false
+					for _, x := range ex.dryIdx[n] {
+						if x == args[1] {
+							seen = true
+						}
+					}
+					if !seen {
+						ex.dryIdx[n] = append(ex.dryIdx[n], args[1])
+					}
+					cur = args[0]
+				}
+				if !okChain {
+					ex.dryWhole[n] = true
+				}
 			}
 		}
 		for n, t := range s.Ghost {
@@ -568,7 +642,8 @@ func (ex *Exec) dryRun(s *State, li *loopInfo) ([]string, []string) {
 	d := s.clone()
 	sub := &Exec{g: ex.g, fn: ex.fn, key: ex.key, con: ex.con, maxPaths: ex.maxPaths, ordinals: map[ssa.Instruction]int{}, ordKind: map[ssa.Instruction]string{},
 		callOrd: map[ssa.Instruction]string{}, loops: ex.loops, usedTrusted: map[string]bool{}, usedAssume: map[string]bool{}, covers: map[string]bool{},
-		dry: true, dryLoop: li, dryMods: map[string]bool{}, dryGMods: map[string]bool{}, dryBase: map[string]Term{}, dryGhost: map[string]Term{}, drySorts: map[string]Sort{}}
+		dry: true, dryLoop: li, dryMods: map[string]bool{}, dryGMods: map[string]bool{}, dryBase: map[string]Term{}, dryGhost: map[string]Term{}, drySorts: map[string]Sort{},
+		dryIdx: map[string][]string{}, dryWhole: map[string]bool{}, dryStart: ex.g.freshCount()}
 	for k, v := range d.Heap {
 		sub.dryBase[k] = v
 	}
@@ -618,6 +693,22 @@ func (ex *Exec) dryRun(s *State, li *loopInfo) ([]string, []string) {
 	for k := range sub.usedTrusted {
 		ex.usedTrusted[k] = true
 	}
+	ex.lastDryIdx, ex.lastDryWhole = sub.dryIdx, sub.dryWhole
 	return mods, gmods
 }
 
+
+var freshSymRe = regexp.MustCompile(`!(\d+)`)
+
+// mentionsDrySymbol: does the term mention a symbol created during the dry run
+// (i.e. a loop-variant value)?
+func (ex *Exec) mentionsDrySymbol(t string) bool {
+	for _, m := range freshSymRe.FindAllStringSubmatch(t, -1) {
+		var n int
+		fmt.Sscanf(m[1], "%d", &n)
+		if n > ex.dryStart {
+			return true
+		}
+	}
+	return false
+}
